@@ -34,12 +34,12 @@ def run(tier, replay_file=None):
     R = common.Run("C20", tier, "model_checking")
     quick = tier == "quick"
     OPS_X = '{"Start","Begin","Step","Results","Crash","Tear","Tick","Metrics"}'
-    mc = tlc.run("Server", dict(consts('{"i1","i2"}' if not quick else '{"i1"}', 2, '{}', OPS_X, timeouts='{2}', ticks='{2}', maxnow=4, kv='{0,2}', sv='{0,3}', scen='{"base"}'), L='99'),
+    mc = tlc.run("Server", dict(consts('{"i1","i2"}' if not quick else '{"i1"}', 2, '{}', OPS_X, timeouts='{2}', ticks='{2}', maxnow=4, kv='{0,2}', sv='{0,3}', scen='{"base"}'), L='0'),
                  invariants=["Continuity", "AliveOK", "GoneOK", "RoundTrip"], view="View", spec="Spec", timeout=3000)
     if mc.violation:
         R.violation("spec:" + mc.violation, {"trace": mc.trace[:3000]})
     R.cov["states"], R.cov["transitions"] = mc.distinct, mc.generated
-    dv = tlc.run("Server", dict(consts('{"i1"}', 2, DEV, OPS_X, timeouts='{2}', ticks='{2}', maxnow=4, scen='{"base"}'), L='99'),
+    dv = tlc.run("Server", dict(consts('{"i1"}', 2, DEV, OPS_X, timeouts='{2}', ticks='{2}', maxnow=4, scen='{"base"}'), L='0'),
                  invariants=["Continuity"], view="View", spec="Spec", timeout=3000)
     if dv.violation != "Continuity":
         raise common.Machinery("Dev={D16b_no_replay} does not violate Continuity in the spec: finding mis-modelled")
